@@ -28,18 +28,21 @@ def gen(rng, sc, n):
         lines.append(l)
         meta[l] = (mt2, items)
     # clone of a DECODED message: fields arrive in schema order (must clone to the same bytes) or in a shuffled order (known finding)
-    for i in range(max(12, n // 6)):
-        rr = r0 if i < 6 else rng
-        for _ in range(50):
-            mt, items = cc.gen_message(rr, sc, p_opt=0.5, with_data=(i % 2 == 1))      # in-order cases may carry Length/data pairs
-            if not any(it.elems is not None for it in items):
+    for i in range(max(16, n // 4)):
+        rr = r0 if i < 8 else rng
+        want_groups = i % 4 == 3          # in-order cases with repeating groups: a received message holds shallow group elements (only the
+        for _ in range(80):               # nested groups that were on the wire), e.g. a first element without and a later one with a nested group
+            mt, items = cc.gen_message(rr, sc, p_opt=rr.choice((0.5, 0.9)) if want_groups else 0.5, with_data=(i % 2 == 1))      # in-order cases may carry Length/data pairs
+            has_g = any(it.elems is not None for it in items)
+            nested = any(it.elems is not None and any(any(x.elems is not None for x in e) for e in it.elems) for it in items)
+            if (want_groups and (nested or (has_g and _ > 60))) or (not want_groups and not has_g):
                 break
         else:
             continue
         wire, toks = cc.ref_encode(sc, mt, items)
         toks = [(b'%d' % t, v) for t, v in toks]
         nh = 1 + len([x for x in items if x.sec == 'h'])
-        shuffled = i % 2 == 0
+        shuffled = i % 2 == 0          # (never for the cases with groups: i % 4 == 3 is odd)
         if shuffled:
             body = toks[nh:]
             (r0 if i < 6 else rng).shuffle(body)
@@ -47,13 +50,22 @@ def gen(rng, sc, n):
         l = 'dclone s ' + cc.hx(cc.reframe(sc, toks))
         lines.append(l)
         meta[l] = ('dclone', shuffled and toks[nh:] != [(b'%d' % t, v) for t, v in cc.ref_encode(sc, mt, items)[1]][nh:])
+    # copy_legal into a message of ANOTHER type (the documented use: NewOrderSingle -> ExecutionReport)
+    xl, xm = cc.gen_xcopy(rng, sc, max(40, n // 5))
+    lines += xl
+    for l in xl:
+        meta[l] = ('xcopy', xm[l])
     return lines, meta
 
 
 def make_oracle(sc, meta):
+    xo = cc.xcopy_oracle(sc, {l: v[1] for l, v in meta.items() if v[0] == 'xcopy'})
+
     def oracle(line, out):
         if line not in meta:
             return (None, None)
+        if meta[line][0] == 'xcopy':
+            return xo(line, out)
         if meta[line][0] == 'dclone':
             m = DRES.match(out)
             if not m:
@@ -89,7 +101,8 @@ def run(res, replay=None):
         lines = vlib.corpus_lines('C11') + lines
     res.assumptions += ['messages carry no permissive pass-through bytes (clone does not copy _unknown)', 'each object is encoded once', 'only FIX42UTEST']
     res.cov['rule'] = ('schema-driven messages (all message types, optional subsets, nested groups, data pairs): clone(), copy_legal into a fresh deep-constructed message of the same type (body, header, trailer), '
-                       'move_legal likewise from a second identical source; the four encodings must be byte-identical to each other and to the position-ordered reference rendering; distinct by line')
+                       'move_legal likewise from a second identical source; the four encodings must be byte-identical to each other and to the position-ordered reference rendering; decoded messages (with nested groups) cloned; '
+                       'copy_legal of the body into a fresh message of ANOTHER type (fields legal there, in the target position order); distinct by line')
     vlib.decide_stream(res, module='Fix8Model.Props.C11', theorems=THEOREMS, stream='codec', harness_name='codec', lines=lines,
                        oracle=make_oracle(sc, meta), nontrivial=lambda l: l if '[' in l or l.count('=') > 8 else None,
                        harness_kw=dict(need_schema=True), extra_obligation_problems=errs)
